@@ -212,7 +212,7 @@ func TestC17_Snssai(t *testing.T) {
 type c17IP struct {
 	V4    HexBytes `json:"v4,omitempty"` // 4 octets or absent
 	V6    HexBytes `json:"v6,omitempty"` // 16 octets or absent
-	Style int      `json:"style"`        // text form of the IPv6 input: -1 canonical RFC 5952, 0..3 RFC 4291 variants
+	Style int      `json:"style"`        // text form of the IPv6 input: -1 canonical RFC 5952, 0..6 RFC 4291 variants
 }
 
 func genIPv6(t *rapid.T) []byte {
@@ -245,6 +245,12 @@ func genIPv6(t *rapid.T) []byte {
 		}
 	case 5: // IPv4-mapped
 		copy(b, []byte{0, 0, 0, 0, 0, 0, 0, 0, 0, 0, 0xff, 0xff})
+	case 6: // exactly one zero group, at either end or inside
+		for g := 0; g < 8; g++ {
+			b[2*g] |= 1
+		}
+		g := rapid.SampledFrom([]int{0, 7, 7, 0, 3}).Draw(t, "zat")
+		b[2*g], b[2*g+1] = 0, 0
 	}
 	return b
 }
@@ -261,7 +267,7 @@ func genC17IP(t *rapid.T) c17IP {
 	if kind >= 1 {
 		c.V6 = genIPv6(t)
 		if rapid.IntRange(0, 3).Draw(t, "noncanon") == 0 {
-			c.Style = rapid.IntRange(0, 3).Draw(t, "style")
+			c.Style = rapid.IntRange(0, 6).Draw(t, "style")
 		}
 		if c.V4 != nil && rapid.IntRange(0, 5).Draw(t, "v6_is_mapped_v4") == 2 {
 			// the IPv6 address of the pair is the IPv4-mapped form of the SAME IPv4 address (::ffff:a.b.c.d): two
@@ -603,6 +609,11 @@ type c17PCOHelpers struct {
 func genC17PCOHelpers(t *rapid.T) c17PCOHelpers {
 	var c c17PCOHelpers
 	n := rapid.IntRange(0, 12).Draw(t, "ncalls")
+	if rapid.IntRange(0, 3).Draw(t, "long") == 2 {
+		// "option lists of any length": the list goes into the EXTENDED protocol configuration options IE (two length
+		// octets), so lists beyond the 251/253 octets of the TS 24.008 IE are lists like any other
+		n = rapid.IntRange(13, 160).Draw(t, "ncalls_long")
+	}
 	for i := 0; i < n; i++ {
 		k := c17PCOCall{Kind: rapid.SampledFrom([]string{"v4req", "v6req", "ipalloc", "dns4", "dns4", "dns6", "dns6", "mtu"}).Draw(t, "kind")}
 		switch k.Kind {
@@ -670,6 +681,9 @@ func c17PCOHelpersOracle(c c17PCOHelpers) ev.Verdict {
 		seen[k.Kind] = true
 	}
 	wantBytes, _ := refid.EncodePCO(want)
+	if len(wantBytes) > 251 {
+		v.Classes = append(v.Classes, "pco-helpers/list-longer-than-251-octets")
+	}
 	got := p.Marshal()
 	if !bytes.Equal(got, wantBytes) {
 		v.Key, v.Err = "PCO.Add:list", fmt.Errorf("after %d helper calls Marshal = %x, the containers the calls name are %x", len(c.Calls), got, wantBytes)
